@@ -85,23 +85,38 @@ def main():
             print("NOT CONFIRMED", json.dumps(result, indent=1)); print(out0[-1500:]); print(out1[-1500:])
     finally:
         sh(f"git -C /repo worktree remove --force {wt}")
-    # run my checks against it
+    # run my checks against it: on /repo itself (apply, check, revert), or with --snapshot on a
+    # private worktree through VERIF_REPO (so that several confirmations / suites can run at once)
     verdicts = {}
-    st = sh("git -C /repo status --porcelain")[1].strip()
-    assert not st, "/repo not clean: " + st
+    snapshot = "--snapshot" in a
+    snap = f"/tmp/chk-{name}"
+    if snapshot:
+        sh(f"git -C /repo worktree remove --force {snap}")
+        rc, out = sh(f"git -C /repo worktree add -q --detach {snap} HEAD")
+        assert rc == 0, out
+        target, env = snap, f"VERIF_REPO={snap} "
+    else:
+        st = sh("git -C /repo status --porcelain")[1].strip()
+        assert not st, "/repo not clean: " + st
+        target, env = "/repo", ""
     try:
-        rc, out = sh(f"git -C /repo apply {patch}")
+        rc, out = sh(f"git -C {target} apply {patch}")
         assert rc == 0, out
         for c in checks:
             t0 = time.time()
-            rc, out = sh(f"/verif/check {c} --no-evidence", timeout=3000)
+            rc, out = sh(f"cd /verif && {env}./check {c} --no-evidence", timeout=3000)
             clause = next((l.strip()[8:] for l in out.splitlines() if l.strip().startswith("clause:")), "")
             detail = next((l.strip()[8:] for l in out.splitlines() if l.strip().startswith("detail:")), "")
             verdicts[c] = {"exit": rc, "verdict": {0: "pass", 1: "VIOLATION", 2: "harness-error"}.get(rc, str(rc)), "clause": clause, "detail": detail[:300], "wall_s": round(time.time() - t0, 1)}
             if rc == 2: verdicts[c]["stderr"] = out[-600:]
             print(f"  check {c}: {verdicts[c]['verdict']} {clause}")
     finally:
-        sh("git -C /repo checkout -- . && git -C /repo clean -fdq cadence cadence-macros")
+        if snapshot:
+            sh(f"git -C /repo worktree remove --force {snap}")
+            h = subprocess.run(f"printf %s {snap} | md5sum | cut -c1-10", shell=True, capture_output=True, text=True).stdout.strip()
+            sh(f"rm -rf /verif/ws-alt-{h}")
+        else:
+            sh("git -C /repo checkout -- . && git -C /repo clean -fdq cadence cadence-macros")
     result["checks"] = verdicts
     result["detected_by_own_check"] = verdicts.get(prop, {}).get("exit") == 1
     out_dir = f"/verif/seeded/{name}"
